@@ -1,4 +1,5 @@
 import Driver.C01
+import Driver.C09
 import Driver.C16
 import Driver.C17
 /-! Line-protocol driver: one op per line on stdin (`<Cxx> <op> <args…>`), one answer per line. -/
@@ -7,6 +8,7 @@ open Driver
 def dispatch (line : String) : String :=
   match tokens line with
   | "C01" :: rest => Driver.C01.handle rest
+  | "C09" :: rest => Driver.C09.handle rest
   | "C16" :: rest => Driver.C16.handle rest
   | "C17" :: rest => Driver.C17.handle rest
   | _ => "bad-op"
